@@ -47,7 +47,14 @@ def check(ctx, world):
             pw = cm.syms["password"]
             for s, sers in zip(cm.started, cm.serialize):
                 scal = [v for k, v in s.state.heap[cm.obj.oid].items() if is_app(v, ".random_scalar")]
-                ctx.require(len(scal) == 1, "%s: cannot identify the secret scalar field" % cname)
+                if len(scal) != 1:
+                    # the scalar field = whichever field value is persisted in the released scalar encoding
+                    cand = []
+                    for so in session.rets(sers):
+                        for t in subterms(so.value):
+                            if is_app(t, ".scalar_to_bytes") and len(t.args) == 2 and t.args[1] in s.state.heap[cm.obj.oid].values():
+                                cand.append(t.args[1])
+                    scal = cand[:1] or [Sym("<no scalar field>")]
                 x = scal[0]
                 want = {"hashed_params": fingerprint(G, pf, cname), "side": Const(SIDE[cname]),
                         "password": hexs(pw), "xy_scalar": hexs(mk_app(".scalar_to_bytes", (G, x)))}
